@@ -445,3 +445,6 @@ def run(ctx):
     r09_4(ctx)
     r09_5(ctx)
     r09_6(ctx)
+    # R09.7 = R17.6: inner_products / integrate weight by |det J| like the compiled mass form
+    import rules.C17 as c17
+    ctx.shared(c17.r17_6, 'R17.6', 'R09.7')
